@@ -62,6 +62,27 @@ impl TypeParams {
             }
         };
 
+        // The concrete type replaces the parameter wherever it is used and the result is searched
+        // for parameters again, so a concrete type that mentions a type parameter of the enum
+        // (`type T = Vec<T>`) would be expanded without end.
+        let mut mentioned = None;
+        traverse_type(&mut ty.clone(), &mut |ty| {
+            if let Type::Path(tp) = ty {
+                if tp.qself.is_none() {
+                    if let Some((name, _)) = self.type_params.iter().find(|(name, _)| tp.path.is_ident(name)) {
+                        mentioned = Some(name.clone());
+                    }
+                }
+            }
+        });
+        if let Some(name) = mentioned {
+            errors.err(
+                format!("The concrete type of {param} cannot refer to the type parameter {name}"),
+                ty.span(),
+            );
+            return;
+        }
+
         match self.type_params.iter_mut().find(|(name, _)| *name == param) {
             Some((_, slot)) => {
                 if let Some(previous) = slot.replace(ty) {
